@@ -104,6 +104,11 @@ ApplyConfig(lim, loc) ==
                      [] k = "vl" -> [lim EXCEPT !.vl = v] [] OTHER -> lim
          IN ApplyConfig(l2, Tail(loc))
 
+FixCount(nd, sc) ==
+    IF nd.form = "count" /\ nd.cond.t = "var"
+    THEN [nd EXCEPT !.cnt = IF EvalE(nd.cond, sc) < 0 THEN 0 ELSE EvalE(nd.cond, sc)]
+    ELSE nd
+
 RECURSIVE EvList(_, _, _, _), EvNode(_, _, _, _), EvLoop(_, _, _, _, _, _)
 
 EvList(list, st, d, C) ==
@@ -162,7 +167,8 @@ EvNode(nd, st, d, C) ==
            ELSE st
       [] nd.k = "void" -> [st EXCEPT !.unr = Append(@, nd)]
       [] nd.k = "config" -> [st EXCEPT !.lim = ApplyConfig(@, nd.loc), !.unr = Append(@, nd)]
-      [] nd.k = "loop" -> EvLoop(nd, st, d, C, 0, nd.start)
+      \* count="$b": the count is the value of the expression when the loop is ENTERED
+      [] nd.k = "loop" -> EvLoop(FixCount(nd, st.sc), st, d, C, 0, nd.start)
       [] nd.k = "specs" ->
            IF st.specs THEN [st EXCEPT !.err = "document"]
            ELSE LET s2 == EvKids(nd, [st EXCEPT !.specs = TRUE], d + 1, C)
